@@ -28,11 +28,22 @@ Plain == {Const("x", 0), Const("x", 1), Const("y", 1),
           Bin("x", "x", "y", "add"), Bin("y", "x", "a", "add"), Bin("x", "a", "b", "add"),
           Bin("x", "x", "y", "mul"), Bin("y", "y", "b", "add"), Copy("y", "x"), Copy("x", "b")}
 Calls == {Call("x", "h", "y"), Call("y", "g", "x"), Call("x", "g", "a"), Call("y", "h", "b"), Call("x", "h", "a")}
+(* helpers with their own branching (k: if / else on a value computed on the line before, m: loop with an if) *)
+BranchyCalls == {Call("x", "k", "a"), Call("y", "k", "x"), Call("x", "k", "y"), Call("y", "k", "b"),
+                 Call("x", "m", "a"), Call("y", "m", "x"), Call("x", "m", "b")}
 Attrs == {Store("o", 0, "x"), Store("o", 0, "a"), Store("p", 0, "y"), Store("o", 1, "y"),
           Load("x", "o", 0), Load("y", "p", 0), Load("x", "o", 1), Load("x", "p", 1)}
 Lists == {Store("l", 0, "x"), Store("l", 1, "y"), Store("l", 0, "b"), Load("x", "l", 0), Load("y", "l", 1)}
 Dicts == {Store("d", 0, "x"), Store("d", 1, "y"), Store("d", 1, "a"), Load("x", "d", 0), Load("y", "d", 1)}
 Globs == {Copy("G", "x"), Copy("G", "b"), Copy("x", "G"), Copy("y", "G")}
+(* attributes whose name starts with an underscore: _q2 (instance), _c4 (class level; c3: class level, public name) *)
+UAttrs == {Store("o", 2, "x"), Store("p", 2, "y"), Store("o", 2, "a"), Store("o", 4, "y"), Store("p", 4, "x"),
+           Load("x", "o", 2), Load("y", "p", 2), Load("x", "o", 4), Load("y", "p", 4), Load("x", "p", 4),
+           Load("y", "o", 3), Load("x", "p", 3)}
+(* closures: r reads, w writes (nonlocal) the local y of f *)
+CapVar == "y"
+Closures == {DefR(CapVar), DefW(CapVar), Call("x", "r", "a"), Call("x", "r", "x"), Call("y", "r", "b"),
+             Do("w", "a"), Do("w", "x")}
 FullAlpha == Plain \cup Calls \cup Attrs \cup Lists \cup Dicts \cup Globs
 CoreAlpha == {Const("x", 1), Copy("y", "x"), Bin("x", "x", "y", "add"), Bin("x", "a", "b", "add"),
               Call("x", "h", "y"), Call("y", "g", "x"),
@@ -44,18 +55,40 @@ CoreAlpha == {Const("x", 1), Copy("y", "x"), Bin("x", "x", "y", "add"), Bin("x",
 AttrAlpha == Attrs \cup {Store("p", 0, "a"), Store("p", 1, "y"), Const("y", 1), Bin("x", "a", "b", "add")}
 ContAlpha == Lists \cup Dicts \cup {Const("y", 1), Bin("x", "a", "b", "add")}
 GlobAlpha == Globs \cup {Call("y", "g", "x"), Call("x", "g", "a"), Const("x", 1), Bin("x", "x", "y", "add")}
+UAttrAlpha == UAttrs \cup {Const("y", 1), Bin("x", "a", "b", "add"), Bin("x", "x", "y", "add")}
+CloAlpha == Closures \cup {Const("y", 1), Const("x", 1), Bin("y", "x", "a", "add"), Bin("y", "y", "b", "add"),
+                           Bin("x", "x", "y", "add"), Copy("x", "y")}
+(* closures / branching helpers next to the other families (programs with branches and loops: simulation) *)
+CloMix == CloAlpha \cup {Copy("y", "x"), Call("x", "h", "y"), Call("y", "k", "x"), Store("o", 0, "y"), Load("y", "o", 0),
+                         Copy("G", "y"), Copy("y", "G"), Call("x", "g", "a")}
+HlpAlpha == BranchyCalls \cup {Call("y", "g", "x"), Call("x", "h", "y"), Const("x", 1), Const("y", 1), Const("x", 0),
+                               Bin("x", "x", "y", "add"), Bin("y", "x", "a", "add"), Bin("x", "a", "b", "add"),
+                               Copy("y", "x"), Copy("x", "b"), Copy("G", "x"), Copy("x", "G")}
+UMix == UAttrs \cup {Store("o", 0, "x"), Load("x", "o", 0), Const("y", 1), Const("x", 0), Bin("x", "a", "b", "add"),
+                     Bin("x", "x", "y", "add"), Bin("y", "x", "a", "add"), Copy("y", "x"), Call("x", "k", "y")}
 AlphaOf(name) == CASE name = "core" -> CoreAlpha [] name = "attr" -> AttrAlpha [] name = "cont" -> ContAlpha
-                   [] name = "glob" -> GlobAlpha [] OTHER -> FullAlpha
+                   [] name = "glob" -> GlobAlpha [] name = "uattr" -> UAttrAlpha [] name = "clo" -> CloAlpha
+                   [] name = "clomix" -> CloMix [] name = "hlp" -> HlpAlpha [] name = "umix" -> UMix
+                   [] OTHER -> FullAlpha
 Fam(n, name, ch) == [sk |-> n, alpha |-> name, chain |-> ch]
 
 (* ---- what a statement needs / provides (names and cells of the must-defined analysis) ---- *)
 (* al = "alias": p is an alias of o (p = o); "new": p is a second object (p = Box()); "none": p not used yet *)
-Cell(o, f, al) == IF o = "o" \/ (o = "p" /\ al = "alias") THEN (IF f = 0 THEN "o0" ELSE "o1")
-                  ELSE IF o = "p" THEN (IF f = 0 THEN "p0" ELSE "p1")
-                  ELSE IF o = "l" THEN (IF f = 0 THEN "l0" ELSE "l1") ELSE (IF f = 0 THEN "d0" ELSE "d1")
-Reads(s, al) == CASE s.t = "bin" -> {s.y, s.z} [] s.t \in {"copy", "call"} -> {s.y}
-                  [] s.t = "store" -> {s.y} [] s.t = "load" -> {Cell(s.o, s.f, al)} [] OTHER -> {}
-Writes(s, al) == CASE s.t = "store" -> {Cell(s.o, s.f, al)} [] OTHER -> {s.x}
+CellNames == [b \in {"o", "p", "l", "d"} |->
+                CASE b = "o" -> <<"o0", "o1", "o2", "o3", "o4">> [] b = "p" -> <<"p0", "p1", "p2", "p3", "p4">>
+                  [] b = "l" -> <<"l0", "l1", "l2", "l3", "l4">> [] b = "d" -> <<"d0", "d1", "d2", "d3", "d4">>]
+Cell(o, f, al) == CellNames[IF o = "p" /\ al = "alias" THEN "o" ELSE o][f + 1]
+(* a class-level attribute can always be read through a Box; an inner function needs its def and the captured variable *)
+Reads(s, al) == CASE s.t = "bin" -> {s.y, s.z} [] s.t \in {"copy", "inc"} -> {s.y}
+                  [] s.t = "call" -> IF s.fn = "r" THEN {s.y, "r", CapVar} ELSE {s.y}
+                  [] s.t = "do" -> {s.y, s.fn}
+                  [] s.t = "store" -> {s.y}
+                  [] s.t = "load" -> IF s.o \in {"o", "p"} /\ s.f \in ClassFields THEN {} ELSE {Cell(s.o, s.f, al)}
+                  [] OTHER -> {}
+Writes(s, al) == CASE s.t = "store" -> {Cell(s.o, s.f, al)} [] s.t = "defr" -> {"r"} [] s.t = "defw" -> {"w"}
+                   [] s.t = "do" -> {CapVar} [] OTHER -> {s.x}
+(* statements that need not read what the body wrote before (chain mode) *)
+Unchained(s) == s.t \in {"call", "do", "defr", "defw"} \/ (s.t = "load" /\ s.o \in {"o", "p"} /\ s.f \in ClassFields)
 Mentions(s) == CASE s.t \in {"store", "load"} -> {s.o} [] OTHER -> {}
 Defd0 == {"a", "b", "G", "l0", "l1", "d0"}
 
@@ -141,7 +174,7 @@ Fill ==
             \E s \in Alphabet :
               \E al \in (IF alias = "none" /\ "p" \in Mentions(s) THEN {"alias", "new"} ELSE {alias}) :
                 /\ Reads(s, al) \subseteq defd
-                /\ (Chain /\ kind = "H" /\ fresh # {} /\ s.t # "call") => Reads(s, al) \cap fresh # {}
+                /\ (Chain /\ kind = "H" /\ fresh # {} /\ ~Unchained(s)) => Reads(s, al) \cap fresh # {}
                 /\ h' = Append(h, s)
                 /\ alias' = al
                 /\ defd' = IF kind = "H" THEN defd \cup Writes(s, al) ELSE defd
@@ -152,6 +185,22 @@ Fill ==
             \E n \in 0..2 : h' = Append(h, CountSlot(n)) /\ UNCHANGED <<defd, fresh, alias>>
   /\ UNCHANGED <<fam, inp, done, prog, out, js>>
 
+(* `nonlocal v` in w is a SyntaxError unless f itself binds v somewhere *)
+RECURSIVE Binds(_, _), HasDefW(_)
+Binds(blk, v) == \E i \in DOMAIN blk :
+                   LET s == blk[i]
+                   IN CASE s.t \in {"const", "bin", "inc", "copy", "call", "load", "new", "mk", "dec"} -> s.x = v
+                        [] s.t = "if" -> Binds(s.a, v) \/ Binds(s.b, v)
+                        [] s.t \in {"for", "while"} -> Binds(s.a, v)
+                        [] OTHER -> FALSE
+HasDefW(blk) == \E i \in DOMAIN blk :
+                  LET s == blk[i]
+                  IN CASE s.t = "defw" -> TRUE
+                       [] s.t = "if" -> HasDefW(s.a) \/ HasDefW(s.b)
+                       [] s.t \in {"for", "while"} -> HasDefW(s.a)
+                       [] OTHER -> FALSE
+Compiles(blk) == HasDefW(blk) => Binds(blk, CapVar)
+
 (* the returned variable: in Chain mode one the last top-level statement wrote, else one the body wrote *)
 LastTop == LET S == {i \in DOMAIN h : Slots(sk)[i] = "H"} IN IF S = {} THEN {} ELSE Writes(h[CHOOSE i \in S : \A j \in S : j <= i], alias)
 RetVars == LET all == {"x", "y"} \cap defd
@@ -160,6 +209,7 @@ RetVars == LET all == {"x", "y"} \cap defd
               ELSE all \cap fresh
 Finish ==
   /\ ~done /\ Len(h) = Len(Slots(sk))
+  /\ Compiles(Body(sk, h))
   /\ \E r \in RetVars :
        LET pr == Prologue(h, alias) \o Body(sk, h) \o <<Ret(r)>>
            res == Run(pr, inp[1], inp[2])
@@ -185,12 +235,13 @@ SpecSliceHasCriterion == done => (out.flow = "r" => out.retp \in out.slice)
 StrictContainsSlice == done => out.slice \subseteq out.strict
 DefLineInSlice == done => (out.flow = "r" => ModLine(5) \in out.slice)
 
-QuickFamilies == {Fam(1, "full", TRUE), Fam(2, "attr", FALSE)}
+QuickFamilies == {Fam(1, "full", TRUE), Fam(2, "attr", FALSE), Fam(2, "uattr", FALSE), Fam(3, "clo", FALSE)}
 QuickInputs == {<<1, 0>>}
 ThoroughFamilies == {Fam(1, "core", TRUE), Fam(2, "core", TRUE), Fam(2, "attr", FALSE), Fam(2, "cont", FALSE),
-                     Fam(2, "glob", FALSE)}
+                     Fam(2, "glob", FALSE), Fam(2, "uattr", FALSE), Fam(2, "clo", FALSE), Fam(3, "clo", FALSE),
+                     Fam(2, "hlp", TRUE)}
 ThoroughInputs == {<<1, 0>>, <<0, 1>>}
-SimFamilies == {Fam(n, "full", TRUE) : n \in AllSkeletons}
+SimFamilies == {Fam(n, al, TRUE) : n \in AllSkeletons, al \in {"full", "clomix", "hlp", "umix"}}
 AllInputs == (0..2) \X (0..2)
 
 Emit == done => PrintT(<<"HIST", js>>)
